@@ -4,6 +4,14 @@ import json, os
 V = os.path.dirname(os.path.dirname(os.path.abspath(__file__)))
 
 CLAIMED = {
+ 'C07': dict(
+  text='Abstract interpretation of the Xml::decode loop over every reachable (state, last state, open-element stack) and byte class: no '
+       'popget() with only the root placeholder open, no top() of an empty stack, look-behind within consumed input (reports carry a witness '
+       'input, e.g. "</>" on the original tree); state-dispatch exhaustiveness; children attached only through the parent-linking operator; '
+       'the encoder escapes every byte the decoder treats specially in text and double-quoted attribute values and the decoder\'s entity table '
+       'inverts the names written; scratch buffer of character references holds the longest sequence. Tree equality after a round trip is not decided.',
+  technique='abstract interpretation of the decoder transition function (worklist fixpoint), exhaustiveness and single-writer queries, escape/entity table agreement over the resolved AST',
+  ref='DESIGN.md section 3 C07'),
  'C06': dict(
   text='Abstract interpretation of the JSON/XDL parser loop over every reachable abstract configuration (state, previous state, comment flag, '
        'escape counter, context stack with per-object pending-name count) and every non-NUL byte (byte classes of the atomic guards): no pop of '
